@@ -118,6 +118,9 @@ Definition versioned_on_real_b (R : resolver) (c : cstr) : bool :=
   | None => true
   end.
 Definition envelope_c (R : resolver) (W : list cdep) : bool :=
+  (* no package provides its own name (implied by "one provider per name" below —
+     the package would be listed twice — but stated, so that no counting argument is needed) *)
+  forallb (fun k => forallb (fun pv => negb (String.eqb (s_name pv) (k_name k))) (k_provs k)) (r_pkgs R) &&
   forallb (env_pkg_b R) (r_pkgs R) &&
   forallb (fun e => match snd e with [_] => true | _ => false end) (r_names R) &&
   forallb (fun k => forallb (fun d => match d_neg d with Some _ => true | None => versioned_on_real_b R (d_pos d) end) (k_deps k)) (r_pkgs R) &&
